@@ -255,8 +255,18 @@ def _control_flags_unguarded(tree) -> bool:
 # R3 predicates as alphabet symbols
 # ----------------------------------------------------------------------------
 
-def _self_attrs(node) -> set[str]:
-    return {n.attr for n in ast.walk(node) if isinstance(n, ast.Attribute) and isinstance(n.value, ast.Name) and n.value.id == "self"}
+def _self_attrs(node, ci=None, prj=None, depth=0) -> set[str]:
+    """fields of self read by a method; a call of another method of the class counts as the fields that method reads"""
+    out = set()
+    called = {id(n.func) for n in ast.walk(node) if isinstance(n, ast.Call)}
+    for n in ast.walk(node):
+        if isinstance(n, ast.Attribute) and isinstance(n.value, ast.Name) and n.value.id == "self":
+            m = ci.find_method(n.attr) if ci is not None else None
+            if m is not None and (id(n) in called or m.is_property()) and depth < 3:
+                out |= _self_attrs(prj.func(m.qual).node, ci, prj, depth + 1)
+            else:
+                out.add(n.attr)
+    return out
 
 
 def rule_R3(ctx, prj: Project):
@@ -275,7 +285,8 @@ def rule_R3(ctx, prj: Project):
             continue
         own = any(isinstance(c, ast.Call) and isinstance(c.func, ast.Name) and c.func.id == "isinstance"
                   and len(c.args) == 2 and attr_chain(c.args[1]) == ci.name for c in eq.calls())
-        ea, ha = _self_attrs(eq.node), _self_attrs(hs.node)
+        eq, hs = prj.func(eq.qual), prj.func(hs.qual)
+        ea, ha = _self_attrs(eq.node, ci, prj), _self_attrs(hs.node, ci, prj)
         if not own:
             ctx.viol("R3", f"{ci.name}/eq-own-class", eq.site(), f"{ci.name}.__eq__ does not restrict equality to {ci.name} instances")
         elif any(isinstance(c, ast.Call) and isinstance(c.func, ast.Name) and c.func.id == "id" for c in hs.calls()):
@@ -438,12 +449,174 @@ def run(ctx, prj: Project):
                        "agreement of nfa_match and match on all inputs"]
     ctx.trust("sub-automata obey the Thompson invariants (fresh start without incoming and fresh accepting state without outgoing edges), "
               "which R1 re-establishes for every operator's own result")
+    evaluated = rule_R7_engine(ctx, prj, full=(ctx.tier == "thorough"))
+    if evaluated == "violation":
+        rule_R3(ctx, prj)
+        return
+    if evaluated == "ok":
+        # the engine as a whole was decided by evaluation; the structural rules that remain are the ones evaluation
+        # does not cover: termination guards (R2) and predicate equality/hash coherence (R3)
+        rule_R2(ctx, prj)
+        rule_R3(ctx, prj)
+        if ctx.tier != "thorough":
+            # cheap complement: the full depth-3 family through the symbolic fragments, when the operators are written in
+            # the fragment that extraction understands (the thorough tier evaluates that family through R7 itself)
+            from ..patterns import Unsupported
+            try:
+                rule_R6_composition(ctx, prj)
+            except (Unsupported, AnalysisError) as e:
+                ctx.rule("R6", "symbolic composition not applicable to this form of the operators (R7 decides)", floor=0)
+                ctx.info(f"R6 composition skipped: {e}")
+        return
     rule_R1(ctx, prj)
     rule_R2(ctx, prj)
     rule_R3(ctx, prj)
     rule_R4(ctx, prj)
     rule_R5(ctx, prj)
     rule_R6_composition(ctx, prj)
+
+
+def corpus(full: bool):
+    A = Pat("atom", pred=Pred("Identity", ("a",)))
+    B = Pat("atom", pred=Pred("Identity", ("b",)))
+    lvl0 = [A, B]
+
+    def grow(xs, pool):
+        out = []
+        for x in xs:
+            for op in ("opt", "star", "plus"):
+                out.append(Pat(op, [x]))
+        for x in xs:
+            for y in pool:
+                out.append(Pat("seq", [x, y]) if x.op != "seq" and y.op != "seq" else None)
+                out.append(Pat("union", [x, y]))
+        return [o for o in out if o is not None]
+    lvl1 = grow(lvl0, lvl0)
+    if not full:
+        # quick: every operator over every depth-1 operand, and every binary combination of depth-1 trees with atoms
+        lvl2 = [Pat(op, [x]) for x in lvl1 for op in ("opt", "star", "plus")] + \
+            [Pat("seq", [x, y]) for x in lvl1 for y in lvl0 if x.op != "seq"] + [Pat("seq", [y, x]) for x in lvl1 for y in lvl0 if x.op != "seq"] + \
+            [Pat("union", [x, y]) for x in lvl1 for y in lvl0] + [Pat("union", [y, x]) for x in lvl1 for y in lvl0]
+        # depth 3, one atom per position: a repetition / option around a sequence or union that begins or ends with one
+        un = ("opt", "star", "plus")
+        inner = [Pat("seq", [Pat(u, [A]), B]) for u in un] + [Pat("seq", [A, Pat(u, [B])]) for u in un] + \
+            [Pat("union", [Pat(u, [A]), B]) for u in un] + [Pat(u, [Pat(v, [A])]) for u in un for v in un]
+        lvl3 = [Pat(o, [x]) for x in inner for o in un]
+        return lvl0 + lvl1 + lvl2 + lvl3
+    lvl2 = grow(lvl1, lvl0 + lvl1) + [Pat("seq", [x, y]) for x in lvl0 for y in lvl1 if y.op != "seq"] + [Pat("union", [x, y]) for x in lvl0 for y in lvl1]
+    lvl3 = [Pat(op, [x]) for x in lvl2 for op in ("opt", "star", "plus")]
+    return lvl0 + lvl1 + lvl2 + lvl3
+
+
+def rule_R7_engine(ctx, prj: Project, full: bool) -> str:
+    """-> 'ok' | 'violation' | 'fallback'"""
+    from ..absint import BoundFunc, MiniInterp, PyRaise, Sym, Unknown
+    from ..engine_eval import Engine, is_deterministic, language_dfa, reference_dfa, shortest_difference
+    ctx.rule("R7", "the engine evaluated: for every pattern tree over {a, b} of the bounded family, the repo's own "
+                   "expression_to_nfa and nfa_to_dfa - interpreted from source on the repo's own operator objects - yield a "
+                   "deterministic automaton whose language equals the tree's regular language (DFA equivalence with the "
+                   "reference construction); match reports exactly the words of the language and starts_with the shortest "
+                   "non-empty prefix in it, for all sequences up to length 3", floor=50)
+    alphabet = ("a", "b")
+    trees = corpus(full)
+    eng = Engine(prj)
+    n = 0
+    bad = None
+    dfas = {}
+    try:
+        for p in trees:
+            n += 1
+            d = eng.dfa(p)
+            g = eng.graph(d)
+            det = is_deterministic(g[2], g[3])
+            if det:
+                bad = bad or (p, f"the automaton built by nfa_to_dfa is not deterministic: {det}")
+                continue
+            L = language_dfa(*g, alphabet)
+            R = reference_dfa(p, alphabet)
+            diff = shortest_difference(L, R, alphabet)
+            ctx.obligations += 1
+            if diff is not None:
+                w, got_acc = diff
+                bad = bad or (p, f"it {'accepts' if got_acc else 'rejects'} the word [{' '.join(w) or 'ε'}] although that word is "
+                                 f"{'not in' if got_acc else 'in'} the pattern's language")
+            else:
+                ctx.discharged += 1
+                dfas[id(p)] = (p, R)
+    except (Unknown, PyRaise) as e:
+        ctx.info(f"engine not evaluable ({type(e).__name__}: {e}) on tree #{n}; falling back to the structural rules")
+        ctx.rule("R7", "engine not evaluable by the interpreter: structural rules R1, R4, R5, R6 apply instead", floor=0)
+        return "fallback"
+    if bad:
+        p, msg = bad
+        ctx.viol("R7", "engine/" + repr(p)[:80], eng.n2d.site(), f"for the pattern {p!r}: {msg}")
+        return "violation"
+    ctx.instances.setdefault("R7", []).extend(dict(site=eng.e2n.site(), what=f"tree #{i}", verdict="ok") for i in range(n))
+    ctx.lines.append(f"OK rule=R7 site={eng.e2n.site()} construct=engine trees={n} all deterministic and language-equivalent")
+    ctx.extra["engine_trees"] = n
+    # match / starts_with on a subset (every operator at the root, nullable and non-nullable operands)
+    seqs = [()] + [(x,) for x in alphabet] + [(x, y) for x in alphabet for y in alphabet] + [(x, y, z) for x in alphabet for y in alphabet for z in alphabet]
+    subset = [t for t in trees if t.op != "atom"][: (60 if full else 16)] + trees[:2]
+    mt = prj.func(f"{GSM}.matcher:match")
+    sw = prj.func(f"{GSM}.matcher:starts_with")
+    checked = 0
+    badm = None
+    try:
+        for p in subset:
+            _, R = reference_dfa(p, alphabet), None
+            states, s0, acc, delta = reference_dfa(p, alphabet)
+
+            def in_lang(w):
+                st = s0
+                for c in w:
+                    st = delta[(st, c)]
+                return st in acc
+            expr = eng.expr(p)
+            cache = {}
+
+            def hook(it, kind, f, args, kwargs, node, cur):
+                if kind == "call" and isinstance(f, BoundFunc) and f.fi.qual == eng.e2n.qual and args and args[0] is expr:
+                    if "nfa" not in cache:
+                        cache["nfa"] = MiniInterp(prj, max_steps=400000, max_depth=60).call(eng.e2n, [expr], {})
+                    return cache["nfa"]
+                if kind == "call" and isinstance(f, BoundFunc) and f.fi.qual == eng.n2d.qual and args and args[0] is cache.get("nfa"):
+                    if "dfa" not in cache:
+                        cache["dfa"] = MiniInterp(prj, max_steps=400000, max_depth=60).call(eng.n2d, [args[0]], {})
+                    return cache["dfa"]
+                return NotImplemented
+            for w in seqs:
+                for fn, name in ((mt, "match"), (sw, "starts_with")):
+                    it = MiniInterp(prj, hook, max_steps=200000, max_depth=60)
+                    r = it.call(fn, [expr, list(w)], {})
+                    checked += 1
+                    if name == "match":
+                        want = len(w) if in_lang(w) else None
+                    else:
+                        ks = [k for k in range(1, len(w) + 1) if in_lang(w[:k])]
+                        want = ks[0] if ks else None
+                    got = None
+                    if r is not None:
+                        if not isinstance(r, Sym):
+                            raise Unknown(f"{name} returns {r!r}")
+                        got = r.fields.get("end")
+                        toks = r.fields.get("tokens")
+                        if isinstance(toks, list) and got is not None and list(toks) != list(w[:got]) and badm is None:
+                            badm = (name, p, w, f"records the items {toks} for a match of length {got}")
+                    if got != want and badm is None:
+                        badm = (name, p, w, f"{'reports a match ending at ' + str(got) if got is not None else 'reports no match'}; required "
+                                            f"{'a match ending at ' + str(want) if want is not None else 'no match'}")
+    except (Unknown, PyRaise) as e:
+        ctx.info(f"match/starts_with not evaluable ({type(e).__name__}: {e}); structural rule R5 applies")
+        rule_R5(ctx, prj)
+        return "ok"
+    ctx.obligations += checked
+    if badm:
+        name, p, w, msg = badm
+        ctx.viol("R7", f"{name}/" + repr(p)[:60], (mt if name == "match" else sw).site(), f"{name}({p!r}, [{' '.join(w)}]) {msg}")
+        return "violation"
+    ctx.discharged += checked
+    ctx.ok("R7", mt.site(), f"match / starts_with agree with the language on {checked} (pattern, sequence) pairs (sequences up to length 3)")
+    return "ok"
 
 
 def rule_R6_composition(ctx, prj: Project, depth2_full=True):
